@@ -27,9 +27,13 @@ import (
 	"io"
 	"net/netip"
 	"os"
+	"os/exec"
+	"path/filepath"
 	"reflect"
+	"regexp"
 	"sort"
 	"strings"
+	"time"
 
 	"github.com/irai/packet"
 	"github.com/irai/packet/fastlog"
@@ -149,6 +153,79 @@ func fmtVal(method string, rv reflect.Value, shape bool, base uintptr, capN int)
 	return "ok"
 }
 
+// ndpWouldSpin: routing oracle only. newParseOptions does not advance over an option whose length
+// field is 0 when the type is not one of the decoded ones (DESIGN 11 #12): such a call never returns,
+// so it is run in a killable child process (see CallGuarded). If this prediction were wrong the child
+// simply returns its real observation.
+func ndpWouldSpin(b []byte, k int) bool {
+	if len(b) <= k {
+		return false
+	}
+	b = b[k:]
+	for i := 0; len(b)-i >= 2; {
+		t, l := b[i], int(b[i+1])*8
+		if l == 0 {
+			switch t {
+			case 1, 2, 3, 5, 24, 25:
+				return false // panics
+			}
+			return true
+		}
+		if l > len(b)-i {
+			return false
+		}
+		if (t == 1 || t == 2) && b[i+1] != 1 || t == 3 && b[i+1] != 4 {
+			return false
+		}
+		i += l
+	}
+	return false
+}
+
+var spinBudget = 10 // child processes per run (each waits 1 s)
+
+// CallGuarded is Call, except that an Options() call predicted to spin is executed in a child process
+// with a wall-clock limit; a kill is the observation "fuel".
+func CallGuarded(vt *VT, method string, b, sp []byte, shape bool) string {
+	k := -1
+	switch vt.Name {
+	case "ICMP6RouterSolicitation":
+		k = 24
+	case "ICMP6RouterAdvertisement":
+		k = 16
+	}
+	if method == "Options" && k >= 0 && os.Getenv("VLIB_CHILD") == "" && ndpWouldSpin(b, k) {
+		tmp, err := os.CreateTemp("", "vchild")
+		if err != nil {
+			return "child-error"
+		}
+		tmp.Close()
+		defer os.Remove(tmp.Name())
+		line := strings.Join([]string{"g", vt.Name, method, lib.Hex(sp), lib.Hex(b)}, " ")
+		cmd := exec.Command(os.Args[0], "-out", tmp.Name(), "-replay", line)
+		cmd.Env = append(os.Environ(), "VLIB_CHILD=1")
+		if err := cmd.Start(); err != nil {
+			return "child-error"
+		}
+		done := make(chan error, 1)
+		go func() { done <- cmd.Wait() }()
+		select {
+		case <-done:
+			out, _ := os.ReadFile(tmp.Name())
+			f := strings.Split(strings.TrimRight(string(out), "\n"), "\t")
+			if len(f) >= 3 {
+				return strings.Split(f[2], "\n")[0]
+			}
+			return "child-error"
+		case <-time.After(time.Second):
+			cmd.Process.Kill()
+			<-done
+			return "fuel"
+		}
+	}
+	return Call(vt, method, mkView(b, sp), shape)
+}
+
 // Call runs one zero-argument method of the view under recover.
 func Call(vt *VT, method string, v []byte, shape bool) (obs string) {
 	defer func() {
@@ -221,8 +298,9 @@ func Register(r *lib.Run, shape bool) {
 		if vt == nil {
 			return "notype"
 		}
-		return Call(vt, a[1], mkView(lib.UnHex(a[3]), lib.UnHex(a[2])), shape)
+		return CallGuarded(vt, a[1], lib.UnHex(a[3]), lib.UnHex(a[2]), shape)
 	})
+	r.Register("types", func(a []string) string { return strings.Join(repoViewTypes(), ",") })
 	r.Register("m", func(a []string) string {
 		vt := find(a[0])
 		if vt == nil {
@@ -267,6 +345,13 @@ func One(r *lib.Run, rng *lib.Rand, vt *VT, b, sp []byte, class string) {
 	for _, m := range Methods(vt) {
 		if m == "String" && vt.StringMax > 0 && len(b) > vt.StringMax {
 			continue
+		}
+		if m == "Options" && (vt.Name == "ICMP6RouterSolicitation" && ndpWouldSpin(b, 24) || vt.Name == "ICMP6RouterAdvertisement" && ndpWouldSpin(b, 16)) {
+			if spinBudget <= 0 {
+				continue
+			}
+			spinBudget--
+			r.Stat("spin-children", 1)
 		}
 		r.Do("g", vt.Name, m, s, h)
 	}
@@ -382,9 +467,47 @@ func Main(shape bool) {
 	if r.Thorough() {
 		n = 6000
 	}
+	r.Do("types")
 	for i := range Types {
 		Generate(r, rng.Fork(), &Types[i], n)
 	}
+}
+
+// repoViewTypes lists the []byte-based types of package packet that have an IsValid method, read from the
+// sources of the tree under test ($VERIF_REPO): a view type added to the library and missing from the
+// model's registry is a correspondence failure of the "types" case.
+func repoViewTypes() []string {
+	repo := os.Getenv("VERIF_REPO")
+	if repo == "" {
+		repo = "/repo"
+	}
+	files, _ := filepath.Glob(filepath.Join(repo, "*.go"))
+	reType := regexp.MustCompile(`(?m)^type (\w+) \[\]byte`)
+	reValid := regexp.MustCompile(`(?m)^func \(\w+ (\w+)\) IsValid\(\)`)
+	types, valid := map[string]bool{}, map[string]bool{}
+	for _, f := range files {
+		if strings.HasSuffix(f, "_test.go") {
+			continue
+		}
+		src, err := os.ReadFile(f)
+		if err != nil {
+			continue
+		}
+		for _, m := range reType.FindAllStringSubmatch(string(src), -1) {
+			types[m[1]] = true
+		}
+		for _, m := range reValid.FindAllStringSubmatch(string(src), -1) {
+			valid[m[1]] = true
+		}
+	}
+	var out []string
+	for t := range types {
+		if valid[t] && t[0] >= 'A' && t[0] <= 'Z' {
+			out = append(out, t)
+		}
+	}
+	sort.Strings(out)
+	return out
 }
 
 var _ = packet.EthMaxSize
